@@ -270,7 +270,7 @@ def run(ck):
                            'removed) compared between the two compilations; names drawn so that referenced names sort before and after the '
                            'referencing ones, definitions in shuffled order.  COMPONENTS OF chains of 1..3 levels at any position, SEQUENCE and '
                            'SET: the field names of every type compared with the linker model and with the meaning of the notation (inside Coq)')
-    ck.assumptions += ['the full COMPONENTS OF statement is refuted (one known finding: the position of the copied components); proved: the single linking step, and the whole pass for every chain that is not circular and whose COMPONENTS OF entries come last -- any depth, any name order, SEQUENCE or SET (C09_pass_acyclic_chain; C09_pass_depth_one)']
+    ck.assumptions += ['the full COMPONENTS OF statement is refuted (one known finding: the position of the copied components); proved: the single linking step, and the whole pass for every chain that is not circular and whose COMPONENTS OF entries come last -- any depth, any name order, SEQUENCE or SET (C09_pass_acyclic_chain; C09_pass_depth_one); with the notations at any position the linked fields are a permutation of the expansion, in exactly the appended order (C09_pass_permutation, C09_pass_appended_exactly)']
     ck.prove('Props/C09.v', ['RasnV.Props.C09'], extra=['Corr/C09.vo'])
     pairs = pair_cases(ck)
     cases = []
